@@ -115,6 +115,7 @@ def replay_states(states, seed, judge_name, tier):
                     cpath = os.path.join(tmpdir, 'm.csv')
                     cv = EC.Variant(canonical=True)
                     cv.a1 = v.a1 if vi else 0        # the pattern spelling varies, the transaction stays canonical-compatible
+                    cv.low = v.low
                     with open(cpath, 'w', newline='') as fh:
                         fh.write(EC.csv_text(f, cv))
                     try:
